@@ -29,43 +29,42 @@ Proof.
   destruct x as [a|l]; cbn; eexists; eexists; split; try reflexivity; discriminate.
 Qed.
 
-Lemma items_flatten PF l : forall g acc rest,
-  Forall (fun x => forall r, PF (flatten x ++ r) = Some (x, r)) l ->
+Lemma items_flatten PF N l : forall g acc rest,
+  Forall (fun x => forall r, (length (flatten x) + length r <= N)%nat -> PF (flatten x ++ r) = Some (x, r)) l ->
+  (length (flat_map flatten l) + S (length rest) <= N)%nat ->
   (length l < g)%nat ->
   items PF g (flat_map flatten l ++ TR :: rest) acc = Some (SL (rev acc ++ l), rest).
 Proof.
-  induction l as [|x l IH]; intros g acc rest H Hg.
+  induction l as [|x l IH]; intros g acc rest H HN Hg.
   - destruct g; [lia|]. cbn. now rewrite app_nil_r.
   - inversion H as [|? ? Hx Hl]; subst. destruct g as [|g]; [cbn in Hg; lia|].
     cbn [flat_map items]. rewrite <- app_assoc.
+    cbn [flat_map] in HN. rewrite app_length in HN.
     destruct (flatten_head x (flat_map flatten l ++ TR :: rest)) as (t & r' & E & Ht).
-    rewrite E. destruct t; try contradiction; rewrite <- E, Hx, IH by (assumption || (cbn in Hg; lia));
+    rewrite E. destruct t; try contradiction; rewrite <- E;
+      (rewrite Hx by (rewrite app_length; cbn [length]; lia));
+      (rewrite IH by (try assumption; try (cbn in Hg; lia); lia));
       cbn [rev]; rewrite <- app_assoc; reflexivity.
 Qed.
 
-Lemma sdepth_le l x : In x l -> (sdepth x <= list_max (map sdepth l))%nat.
+Lemma flat_map_len l : (length l <= length (flat_map flatten l))%nat.
 Proof.
-  intros Hin.
-  assert (H : Forall (fun k => (k <= list_max (map sdepth l))%nat) (map sdepth l)) by (apply list_max_le; lia).
-  rewrite Forall_forall in H. apply H. now apply in_map.
+  induction l as [|x l IH]; [cbn; lia|]. cbn [flat_map]. rewrite app_length.
+  pose proof (flatten_nonempty x). cbn [length]. lia.
 Qed.
 
 (* the s-expression reader inverts the printer's token stream *)
 Theorem parse_flatten s : forall fuel rest,
-  (sdepth s <= fuel)%nat -> parse fuel (flatten s ++ rest) = Some (s, rest).
+  (length (flatten s) + length rest < fuel)%nat -> parse fuel (flatten s ++ rest) = Some (s, rest).
 Proof.
   induction s as [a|l IH] using sexp_ind2; intros fuel rest Hf.
   - destruct fuel; [cbn in Hf; lia|]. reflexivity.
-  - destruct fuel as [|f]; [cbn in Hf; lia|]. cbn [sdepth] in Hf. apply le_S_n in Hf.
+  - destruct fuel as [|f]; [lia|].
     cbn [flatten app parse]. rewrite <- app_assoc. cbn [app].
-    rewrite items_flatten; [reflexivity | | ].
-    + apply Forall_forall. intros x Hin r. rewrite Forall_forall in IH. apply IH; [exact Hin|].
-      pose proof (sdepth_le l x Hin). lia.
-    + rewrite app_length. cbn [length].
-      assert (length l <= length (flat_map flatten l))%nat.
-      { clear. induction l as [|x l IH]; [cbn; lia|]. cbn [flat_map]. rewrite app_length.
-        pose proof (flatten_nonempty x). cbn [length]. lia. }
-      lia.
+    cbn [flatten length] in Hf. rewrite app_length in Hf. cbn [length] in Hf.
+    rewrite (items_flatten (parse f) (length (flat_map flatten l) + S (length rest))); [reflexivity | | lia | ].
+    + apply Forall_forall. intros x Hin r Hr. rewrite Forall_forall in IH. apply IH; [exact Hin|lia].
+    + pose proof (flat_map_len l). lia.
 Qed.
 
 Lemma sdepth_le_length s : (sdepth s <= length (flatten s))%nat.
@@ -271,7 +270,7 @@ Proof.
   intros Hwf. unfold rd, wr.
   rewrite parse_flatten.
   - now rewrite node_back_all.
-  - pose proof (sdepth_le_length (fst (to_sexp P T c n))). rewrite app_length. lia.
+  - rewrite app_length. lia.
 Qed.
 
 End WithParams.
